@@ -350,4 +350,97 @@ proof {
     }
 }
 @end
+
+@fn src/filedb/inner/dbxxx.rs | impl<KT: DbMapKeyType> DbXxxObjectSafe<KT> for FileDbXxxInner<KT> | put_kt
+@opts rlimit=200
+@serves C01 C03 C05 C08
+@requires
+old(self).inv(), small(old(self).mb()), key_kt.bytes().len() <= 0x1_0000, value@.len() <= 0x100_0000,
+forall|w: MapW, o: nat| #[trigger] map_ok(old(self).mb(), w) && #[trigger] is_key(w.kw, o) ==> kkey(w.kw, o).len() <= 0x1_0000
+@ensures
+final(self).same_env(old(self)),
+old(self).healthy() ==> r is Ok,
+r is Ok ==> forall|w: MapW| #[trigger] map_ok(old(self).mb(), w) ==> exists|w2: MapW| #[trigger] map_ok(final(self).mb(), w2) && is_insert(w, w2, key_kt.bytes(), value@),
+r is Ok ==> final(self).dirty_ok()
+@entry
+let ghost m = old(self).mb();
+let ghost key = key_kt.bytes();
+let ghost b = bucket_of(key, m.n);
+let ghost w0: MapW = choose|w: MapW| #[trigger] map_ok(m, w);
+let ghost mut gopt: Option<(nat, nat)> = None;
+let ghost mut voff: nat = 0;
+let ghost mut ko: nat = 0;
+let ghost mut hb1: Seq<u8> = m.hb;
+proof { lemma_bucket_range(key, m.n); }
+@after-call find_in_hash_buckets_kt 1
+proof {
+    gopt = match opt { Some(t) => Some((t.0.val as nat, t.1.val as nat)), None => None };
+    assert(find_post(m, w0, key, gopt));
+    assert(chain_ok(w0.kw, bucket(m.hb, b), w0.cs[b], b, m.n));
+    lemma_chain_head(w0.kw, bucket(m.hb, b), w0.cs[b], b, m.n);
+    if gopt is Some {
+        let k0 = gopt->Some_0.0;
+        let i = choose|i: int| 0 <= i < w0.cs[b].len() && #[trigger] w0.cs[b][i] == k0 && kkey(w0.kw, k0) == key && gopt->Some_0.1 == prev_of(w0.cs[b], i);
+        lemma_chain_member(w0.kw, bucket(m.hb, b), w0.cs[b], b, m.n, i);
+        assert(map_ok(self.mb(), w0) && is_key(w0.kw, k0));
+    } else {
+        if w0.cs[b].len() > 0 { lemma_chain_member(w0.kw, bucket(m.hb, b), w0.cs[b], b, m.n, 0); lemma_key_decodes(m.kb, m.kpm, w0.kw, w0.cs[b][0]); }
+        assert(heap_ok(self.vf().bytes, m.vpm, w0.vw));
+    }
+}
+@after-call add_value_piece 1
+proof {
+    voff = new_val_piece.offset.val as nat;
+    lemma_roundup_val(value@);
+    lemma_alloc_effect(m.vb, m.vpm, w0.vw, val_need(value@), SlotC::Val(value@));
+    assert(heap_ok(self.kf().bytes, m.kpm, w0.kw));
+}
+@after-call add_key_piece 1
+proof { ko = new_key_piece.offset.val as nat; }
+@after-call write_key_piece_offset 1
+proof { hb1 = self.hf().bytes; lemma_rd_count_same(m.hb, hb1); }
+@before-call store_value_on_insert 1
+proof {
+    assert(self.mb() == m);
+    assert(self.inv());
+    assert(key_offset.val != 0);
+    assert(map_ok(self.mb(), w0) && is_key(w0.kw, key_offset.val as nat));
+}
+@exit
+proof {
+    if r__ is Ok {
+        let m2 = self.mb();
+        assert forall|w: MapW| #[trigger] map_ok(m, w) implies exists|w2: MapW| #[trigger] map_ok(m2, w2) && is_insert(w, w2, key, value@) by {
+            assert(find_post(m, w, key, gopt));
+            if gopt is Some {
+                let k0 = gopt->Some_0.0;
+                let s = w.cs[b];
+                assert(chain_ok(w.kw, bucket(m.hb, b), s, b, m.n));
+                let i = choose|i: int| 0 <= i < s.len() && #[trigger] s[i] == k0 && kkey(w.kw, k0) == key && gopt->Some_0.1 == prev_of(s, i);
+                lemma_chain_member(w.kw, bucket(m.hb, b), s, b, m.n, i);
+                assert(map_ok(m, w) && is_key(w.kw, k0));
+            } else {
+                let head = bucket(m.hb, b);
+                assert(chain_ok(w.kw, head, w.cs[b], b, m.n));
+                lemma_chain_head(w.kw, head, w.cs[b], b, m.n);
+                if w.cs[b].len() > 0 { lemma_chain_member(w.kw, head, w.cs[b], b, m.n, 0); lemma_key_decodes(m.kb, m.kpm, w.kw, w.cs[b][0]); }
+                lemma_roundup_val(value@);
+                let tv = w_alloc(w.vw, m.vb.len(), val_need(value@), SlotC::Val(value@));
+                assert(heap_ok(m2.vb, m.vpm, tv.0) && tv.1 == voff);
+                lemma_alloc_effect(m.vb, m.vpm, w.vw, val_need(value@), SlotC::Val(value@));
+                lemma_roundup_key(key, voff, head);
+                let kc = SlotC::Key(key, voff, head);
+                let tk = w_alloc(w.kw, m.kb.len(), key_need(key, voff, head), kc);
+                assert(heap_ok(m2.kb, m.kpm, tk.0) && tk.1 == ko);
+                lemma_alloc_effect(m.kb, m.kpm, w.kw, key_need(key, voff, head), kc);
+                lemma_count_write(hb1, m.n, htx_count(hb1) + 1);
+                lemma_rd_count_same(m.hb, hb1);
+                lemma_map_add(m, m2, w, tk.0, tv.0, key, value@, ko, voff);
+                let w2 = MapW { kw: tk.0, vw: tv.0, cs: w.cs.update(b, seq![ko] + w.cs[b]), vown: w.vown.insert(voff, ko) };
+                assert(map_ok(m2, w2) && is_insert(w, w2, key, value@));
+            }
+        }
+    }
+}
+@end
 @endmod
